@@ -5,8 +5,13 @@ state (inverse laws, length laws, catalogue check values, chain/residue laws) an
 together with every expected output computed from the TLA+ reference.  The real functions (driver
 harness/codec_drv.c, rebuilt from common.REPO in several build configurations, ASan/UBSan on exact-size heap
 blocks in the first one) must return exactly those bytes, values and reported lengths.
-Python only renders abstract values to hex, runs the driver and compares."""
-import threading, time
+Python only renders abstract values to hex, runs the driver and compares.
+
+A death of the driver inside the code under test on a generated case (ASan/UBSan report, SIGSEGV/SIGBUS/SIGFPE or the
+alarm() watchdog caught by vh_util's handler) is a VIOLATION keyed <family>:<function/base>:<failure class>[:<function>];
+after CRASH_CAP deaths of one key base the remaining cases of that base are skipped (counted in the evidence) so that a
+systematic defect cannot exhaust the rig; a death without such a report is an infrastructure failure (exit 2)."""
+import re, threading, time
 from rig import common
 from rig.common import hexs, unhex, kv
 
@@ -25,9 +30,10 @@ class Part:
     """one codec family: cases -> driver lines with expectations -> comparison"""
     def __init__(self, ctx, name):
         self.ctx = ctx; self.name = name; self.lines = []; self.meta = []; self.nontriv = set()
-    def case(self, line, expect, keybase, cls=None, nontrivial=True):
-        """expect: dict of fields the answer must carry: rc, n, out (bytes or tuple of acceptable bytes), v, v2"""
-        self.lines.append(line); self.meta.append((expect, keybase, cls))
+    def case(self, line, expect, keybase, cls=None, nontrivial=True, group=None, fn=None):
+        """expect: dict of fields the answer must carry: rc, n, out (bytes or tuple of acceptable bytes), v, v2
+        group: crash-cap group (default: the key base); fn: function named in the key when the death report has none"""
+        self.lines.append(line); self.meta.append((expect, keybase, cls, group or keybase, fn))
         if nontrivial: self.nontriv.add(line)
 
 def symptom(expect, ans, cls=None):
@@ -55,16 +61,64 @@ def matches(expect, f):
         if k in expect and f.get(k) != expect[k]: return False
     return True
 
+CRASH_CAP = 3      # crashes of the code under test recorded per key base and build; further cases of that base are skipped
+
+def batch_run_capped(exe, lines, groups, cap=CRASH_CAP, timeout=600):
+    """common.batch_run with a bounded number of restarts.  A death of the driver inside the code under test
+    (sanitizer report, or a signal / the alarm() watchdog caught by vh_util's fault handler) on a spec-generated
+    case is a verdict about the code, never an infrastructure failure: the case gets {'crash': san_key, 'raw': ..}.
+    A systematic defect (e.g. a table index out of range for every input of two or more bytes) dies on hundreds of
+    cases and common.batch_run gives up (Infra, exit 2) after 400 restarts - so here, after `cap` deaths in one
+    group (= key base) the remaining cases of that group are not run any more (result {'skipped': group}; the
+    violation is already recorded) while every other group is still compared in full.  Restarts are bounded by
+    cap * number of groups.  A death WITHOUT a sanitizer/FAULT report (driver bug, rig timeout) is Infra."""
+    res = [None] * len(lines)
+    todo = list(range(len(lines))); deaths = {}
+    env = {"ASAN_OPTIONS": "detect_leaks=0:abort_on_error=0:detect_stack_use_after_return=1:allocator_may_return_null=1",
+           "UBSAN_OPTIONS": "print_stacktrace=1:halt_on_error=1"}
+    while todo:
+        rc, out = common.sh([exe], stdin=("\n".join(lines[i] for i in todo) + "\n").encode(), timeout=timeout, env=env)
+        answers = []
+        for ln in out.split("\n"):
+            if ln.startswith("==") or "runtime error:" in ln or ln.startswith("FAULT") or ln.startswith("[rig] TIMEOUT"):
+                break
+            if ln.strip(): answers.append(ln)
+        k = min(len(answers), len(todo))
+        for i, a in zip(todo, answers): res[i] = a
+        if rc == 0 and k == len(todo): break
+        key = common.san_key(out)
+        if k == len(todo) or key is None:
+            raise common.Infra("driver died (rc=%s) without a sanitizer/fault report or after answering everything "
+                               "(rig problem, not a verdict); next case: %s\n%s"
+                               % (rc, lines[todo[k]] if k < len(todo) else "-", out[-2000:]))
+        bad = todo[k]; g = groups[bad]
+        res[bad] = {"crash": key, "raw": out[-2500:]}
+        deaths[g] = deaths.get(g, 0) + 1
+        todo = todo[k + 1:]
+        if deaths[g] >= cap:
+            for i in todo:
+                if groups[i] == g: res[i] = {"skipped": g}
+            todo = [i for i in todo if groups[i] != g]
+    return res
+
+def crash_symptom(k, fn_of_case):
+    """failure class and function of a death inside the code under test, e.g. global-buffer-overflow-READ:crc32_normal4
+    (a FAULT in a plain build carries no symbol: the function the case calls is named instead)"""
+    kind, fn = k[0], k[1] or fn_of_case
+    return "%s:%s" % (kind, fn) if fn else kind
+
 _lock = threading.Lock()
 def run_part(ctx, part, exes, fails):
-    local = {}; nev = 0
+    local = {}; nev = 0; nskip = 0
     for bname, exe in exes:
-        res = common.batch_run(exe, part.lines, timeout=600)
-        for ln, (expect, keybase, cls), a in zip(part.lines, part.meta, res):
+        res = batch_run_capped(exe, part.lines, [m[3] for m in part.meta])
+        for ln, (expect, keybase, cls, _, fn), a in zip(part.lines, part.meta, res):
+            if isinstance(a, dict) and "skipped" in a:
+                nskip += 1; continue
             nev += 1
             if isinstance(a, dict):
                 k = a["crash"]
-                sym = "short-by-one" if (cls == "pow10" and k[0] == "heap-buffer-overflow-WRITE") else "%s:%s" % (k[0], k[1])
+                sym = "short-by-one" if (cls == "pow10" and k[0] == "heap-buffer-overflow-WRITE") else crash_symptom(k, fn)
                 key = "%s:%s" % (keybase, sym)
                 detail = "build %s\ncase %s\n%s" % (bname, ln, a["raw"][-1500:])
             else:
@@ -76,6 +130,7 @@ def run_part(ctx, part, exes, fails):
     with _lock:
         for k, v in local.items(): fails.setdefault(k, []).extend(v)
         ctx.add(evaluations=nev, distinct_nontrivial=len(part.nontriv))
+        if nskip: ctx.add(cases_skipped_after_repeated_crashes_of_their_key=nskip)
         ctx.cov.setdefault("cases_per_family", {})[part.name] = len(part.lines)
 
 def fmt_expect(e):
@@ -150,34 +205,60 @@ def num_cases(ctx, cases):
         t = c["t"]; text = bytes(c["text"]); v = limbs_hex(c["v"]); cls = c["cls"]; nm = c["name"]
         for f in (0, 1):
             # capacity = text + NUL, which is what the macros themselves demand ((_len + 1) > _size -> ENOSPC)
+            g = ":%d:%d" % (t, f)      # crash cap per integer type and function flavour, not per class
             p.case("numfmt %s %d %d %d" % (v, len(text) + 1, t, f), dict(exact_len=True, rc=0, n=len(text), out=text),
-                   "num2str:" + cls, cls=cls)
-            p.case("numparse %s 0 %d %d" % (hexs(text), t, f), dict(v=v), "str2num:" + cls, cls=cls)
+                   "num2str:" + cls, cls=cls, group="num2str:" + cls + g)
+            p.case("numparse %s 0 %d %d" % (hexs(text), t, f), dict(v=v), "str2num:" + cls, cls=cls, group="str2num:" + cls + g)
             if c["signed"] and not c["neg"]:
-                p.case("numparse %s 0 %d %d" % (hexs(b"+" + text), t, f), dict(v=v), "str2num:plus-sign:" + cls, cls=cls)
+                p.case("numparse %s 0 %d %d" % (hexs(b"+" + text), t, f), dict(v=v), "str2num:plus-sign:" + cls, cls=cls,
+                       group="str2num:plus-sign:" + cls + g)
             for hn in ("hexl", "hexu"):
                 ht = bytes(c[hn])
                 if hn == "hexu" and ht == bytes(c["hexl"]): continue
-                p.case("numparseh %s 0 %d %d" % (hexs(ht), t, f), dict(v=v), "strh2num:" + cls, cls=cls)
+                p.case("numparseh %s 0 %d %d" % (hexs(ht), t, f), dict(v=v), "strh2num:" + cls, cls=cls, group="strh2num:" + cls + g)
     return p
 
 TBL = ["tbl256_04c11db7", "tbl_edb88320", "tbl_1edc6f41", "tbl_a833982b", "tbl256_814141ab"]
 def w32(w): return "%016x" % (w[0] * 65536 + w[1])     # << hi, lo >> -> driver's v= field
 
+REFL = [0, 1, 1, 1, 0]                                  # codec_drv.c crc_refl[]: which worker a raw table goes through
+def crc_fn(k, var):
+    return "crc32_%s%s" % ("reflect" if REFL[k] else "normal", {4: "4", 8: "8", 0: ""}[var])
+
 def crc_cases(ctx, cases):
+    """Every state of GenCrc is compared through all 5 tables x 3 start values x {4-bit worker, 8-bit worker,
+    size-switching front end} and through all 8 named models one-shot and as first-part + *_update(rest) for
+    split points 0, 1, n/2, n-1, n.  Shortest inputs first: a wrong VALUE on a one-byte input is met (and
+    recorded under <base>:wrong-result) before longer inputs drive a broken worker out of its table."""
     p = Part(ctx, "crc32")
-    for c in cases:
+    seen = {}
+    for c in sorted(cases, key=lambda c: len(c["in"])):
         d = bytes(c["in"]); n = len(d)
         for k in range(5):
             for j, init in enumerate(c["inits"]):
                 exp = w32(c["raw"][k][j]); ih = "%04x%04x" % (init[0], init[1])
                 for var, vn in ((4, "nibble"), (8, "byte"), (0, "auto")):
                     p.case("crcraw %s 0 %d %d %s" % (hexs(d), k, var, ih), dict(v=exp),
-                           "crc32:%s:%s" % (TBL[k], vn), nontrivial=n > 0)
+                           "crc32:%s:%s" % (TBL[k], vn), nontrivial=n > 0, fn=crc_fn(k, var))
+                    # which worker the front end takes is decided by the size (CRC32_SMALL_TBL_LIMIT = 64)
+                    path = (TBL[k], vn if var else ("auto<64" if n < 64 else "auto>=64"), j)
+                    if n > 0: seen[path] = seen.get(path, 0) + 1
         for m, name in enumerate(c["names"]):
             exp = w32(c["model"][m])
             for split in sorted({0, 1, n // 2, max(n - 1, 0), n} & set(range(n + 1))):
                 p.case("crcname %s 0 %d %d" % (hexs(d), m, split), dict(v=exp, v2=exp), "crc32:" + name, nontrivial=n > 0)
+                path = (name, "oneshot+split" if 0 < split < n else "oneshot+degenerate-split", "<64" if n < 64 else ">=64")
+                if n > 0: seen[path] = seen.get(path, 0) + 1
+    # vacuity of the comparison matrix (the corpus comes from the spec; this only checks that nothing was left out)
+    want = [(TBL[k], vn, j) for k in range(5) for vn in ("nibble", "byte", "auto<64", "auto>=64") for j in range(3)]
+    if cases:
+        names = cases[0]["names"]
+        want += [(nm, sp, sz) for nm in names for sp in ("oneshot+split", "oneshot+degenerate-split") for sz in ("<64", ">=64")]
+        if len(names) != 8 or len(set(names)) != 8: raise common.Infra("GenCrc: expected 8 distinct named models, got %r" % (names,))
+    missing = [w for w in want if not seen.get(w)]
+    if missing: raise common.Infra("crc32 comparison matrix has empty cells (no non-empty input): %r" % (missing[:6],))
+    ctx.cov["crc32_matrix"] = {"raw_cells(table x worker-path x init)": 60, "named_cells(model x split-kind x size-class)": 32,
+                               "min_cases_per_cell": min(seen[w] for w in want)}
     return p
 
 FAMILIES = [  # generator module, key field for de-duplication, case builder, TLC stack
@@ -258,7 +339,8 @@ def run(ctx):
     for t in pth: t.start()
     for t in pth: t.join()
     if perr: raise perr[0]
-    for key in sorted(fails):
+    # value mismatches first, deaths (sanitizer / signal) of the same function after them
+    for key in sorted(fails, key=lambda k: (not k.endswith((":wrong-result", ":short-by-one")), k)):
         lst = fails[key]
         for detail, replay in lst[:MAX_PER_KEY]:
             ctx.fail(key, detail + ("\n(%d failing cases share this key)" % len(lst)), replay)
@@ -281,4 +363,6 @@ def run(ctx):
                         "minimum through signed wrap-around (UB in ISO C); the parsed VALUE is compared in every build instead",
                         "cvt_bin2hex of an empty input yields \"00\" by documented convention and cvt_hex2bin refuses empty "
                         "input, so the empty string is outside the hex round-trip corpus",
-                        "size_t/ssize_t are 64-bit (LP64 build host)"]
+                        "size_t/ssize_t are 64-bit (LP64 build host)",
+                        "a sanitizer/signal death of the driver on a generated case is reported as a violation of the function the case "
+                        "calls; after %d deaths per key base (and integer type) the rest of that base is not run in that build" % CRASH_CAP]
